@@ -196,21 +196,24 @@ class C02(Cfg):
                 defs[g("id")].edges = []
             elif k == "radmin":
                 d = defs[g("room")]; d.admins.append((g("k"), g("t"), a["en"] == "1"))
-                d.rows.append((g("id"), None, 102, g("t"), g("t"), g("by"), 0))
+                d.rows.append((g("id"), None, 102, g("t"), g("t"), g("by"), 1000000 + 2 * g("k") + int(a["en"])))
                 d.edges.append((g("room"), 100, 32, g("id"), g("t"), g("by")))
             elif k == "rauth":
                 d = defs[g("room")]; d.groups[g("id")] = {"users": [], "uadmins": [], "rights": []}
-                d.rows.append((g("id"), None, 101, g("t"), g("t"), g("by"), 0))
+                d.rows.append((g("id"), None, 101, g("t"), g("t"), g("by"), 1))
                 d.edges.append((g("room"), 100, 33, g("id"), g("t"), g("by")))
             elif k in ("rright", "ruser", "ruadmin"):
                 d = defs[g("room")]; grp = d.groups[g("g")]
                 if k == "rright":
                     grp["rights"].append((g("e"), g("t"), a["ms"] == "1", a["ma"] == "1")); ent, lab = 103, 33
+                    tag = 2000000 + 4 * g("e") + 2 * int(a["ms"]) + int(a["ma"])
                 elif k == "ruser":
                     grp["users"].append((g("k"), g("t"), a["en"] == "1")); ent, lab = 102, 34
+                    tag = 1000000 + 2 * g("k") + int(a["en"])
                 else:
                     grp["uadmins"].append((g("k"), g("t"), a["en"] == "1")); ent, lab = 102, 35
-                d.rows.append((g("id"), None, ent, g("t"), g("t"), g("by"), 0))
+                    tag = 1000000 + 2 * g("k") + int(a["en"])
+                d.rows.append((g("id"), None, ent, g("t"), g("t"), g("by"), tag))
                 d.edges.append((g("g"), 101, lab, g("id"), g("t"), g("by")))
             elif k == "install":
                 if out == "ok":
